@@ -939,9 +939,35 @@ def compressed_frame(an, rep):
                     any(x[0] == "len" or (x[0] == "call" and (x[1] in guards.PURE_LEN or x[1].endswith("::len"))) for x in mir.walk_expr(c))
             buf_site = strip_refs(rte[0][5][1])[4] if rte and strip_refs(rte[0][5][1])[0] == "call" else None
             in_buf = lambda t: any(x[0] == "call" and x[4] == buf_site for x in mir.walk_expr(t))
-            in_arg = lambda t: any(x[0] == "arg" and x[1] == 2 for x in mir.walk_expr(t))
-            okk = checked_len(ws[0][2]) and in_arg(ws[0][2]) and not in_buf(ws[0][2]) and checked_len(ws[1][2]) and \
-                in_buf(ws[1][2]) and not in_arg(ws[1][2]) and in_buf(ws[2][2])
+
+            def lens_of(t):
+                """what the len() nodes of `t` measure: 'arg' (the input slice), 'buf' (the deflated buffer), 'other'"""
+                out = set()
+
+                def go(x):
+                    if not isinstance(x, tuple):
+                        return
+                    inner = None
+                    if x[0] == "len":
+                        inner = x[1]
+                    elif x[0] == "call" and (x[1] in guards.PURE_LEN or x[1].endswith("::len")) and x[3]:
+                        inner = x[3][0]
+                    if inner is not None:
+                        i = strip_refs(inner)
+                        while isinstance(i, tuple) and i[0] == "call" and i[1].endswith(("::deref", "::as_slice", "::as_ref")) and i[3]:
+                            i = strip_refs(i[3][0])
+                        out.add("arg" if i[0] == "arg" and i[1] == 2 else "buf" if i[0] == "call" and i[4] == buf_site else "other")
+                        return                   # what the measured value itself was built from does not matter
+                    for y in x[1:]:
+                        if isinstance(y, tuple):
+                            go(y)
+                        elif isinstance(y, list):
+                            for z in y:
+                                go(z)
+                go(t)
+                return out
+            okk = checked_len(ws[0][2]) and lens_of(ws[0][2]) == {"arg"} and checked_len(ws[1][2]) and \
+                lens_of(ws[1][2]) == {"buf"} and in_buf(ws[2][2])
         R.check(okk, w.key, "frame", "frame must be VarU32(len(input)), VarU32(len(deflated)), deflated bytes with checked "
                 "conversions: %s" % [(e[1], show(e[2])[:60]) for e in ws], mir.loc(w, 0),
                 sample={"frame": "VarU32(len input) VarU32(len deflated) bytes"})
